@@ -35,6 +35,8 @@ type CEnv struct {
 	scope token.Pos // position for local-name lookup (0: none)
 	inOld bool
 	what  string
+	// assumeFresh: fresh(x) introduces a new allocation (callee contract being assumed at a call site)
+	assumeFresh bool
 	li    *loopInfo
 }
 
@@ -334,6 +336,14 @@ func (e *CEnv) ident(name string) CVal {
 	}
 	if v, ok := e.vars[name]; ok {
 		return v
+	}
+	if cv, ok := e.fx.capTypes[name]; ok {
+		// value captured by an "after <callee> let" clause
+		if t, ok := e.st.ghost["cap|"+name].(*Term); ok {
+			cv.V = t
+			return cv
+		}
+		e.fail("captured value %s is not defined on this path", name)
 	}
 	switch name {
 	case "true":
@@ -1166,6 +1176,40 @@ func (e *CEnv) call(x *CExpr) CVal {
 	case "isnil":
 		v := e.Eval(x.Args[0])
 		return CVal{V: e.fx.isNil(v.V), T: types.Typ[types.Bool]}
+	case "fresh":
+		// fresh(x): the object (backing array) x refers to was allocated by this call.  Assumed at a call
+		// site by introducing a new allocation; proved for the function itself by x being one of the
+		// allocations made during its execution.  Positive positions of ensures clauses only.
+		v := e.Eval(x.Args[0])
+		var ref *Term
+		switch p := v.V.(type) {
+		case SliceV:
+			ref = p.Ref
+		case PtrV:
+			ref = e.fx.ptrRef(p)
+		case IfaceV:
+			ref = p.Ref
+		case *Term:
+			if p.Sort == RefSort {
+				ref = p
+			}
+		}
+		if ref == nil {
+			e.fail("fresh: reference-like value expected")
+		}
+		if e.assumeFresh {
+			if len(e.fx.pendingFresh) == 0 {
+				e.fail("fresh: no allocation reserved for this occurrence")
+			}
+			r := e.fx.pendingFresh[0]
+			e.fx.pendingFresh = e.fx.pendingFresh[1:]
+			return CVal{V: c.Eq(ref, r), T: types.Typ[types.Bool]}
+		}
+		var alts []*Term
+		for _, r := range e.fx.freshRefs {
+			alts = append(alts, c.Eq(ref, r))
+		}
+		return CVal{V: c.Or(alts...), T: types.Typ[types.Bool]}
 	case "typeis":
 		// typeis(iface, "pkg.Type")
 		v := e.Eval(x.Args[0])
@@ -1516,6 +1560,12 @@ func (fx *FnExec) arrayUpdated(oldArr, newArr, wlo, wlen *Term) {
 		nt := c.App("rng", UnintSort("Bytes"), newArr, r.off, r.ln)
 		ot := c.App("rng", UnintSort("Bytes"), oldArr, r.off, r.ln)
 		disjoint := c.Or(c.BVCmp("bvsle", c.BVBin("bvadd", r.off, r.ln), wlo), c.BVCmp("bvsle", c.BVBin("bvadd", wlo, wlen), r.off))
+		if fx.curPC != nil && fx.provedNow(disjoint) {
+			// disjointness already follows from the path condition (decided by a small side query over the
+			// ground facts): state the consequence directly, so that the final obligation needs no
+			// bit-vector arithmetic for it
+			fx.assumeGlobal(c.Implies(fx.curPC, c.Eq(nt, ot)))
+		}
 		fx.assumeGlobal(c.Implies(disjoint, c.Eq(nt, ot)))
 		if !fx.rngSeen[nt] {
 			fx.rngSeen[nt] = true
@@ -1523,4 +1573,34 @@ func (fx *FnExec) arrayUpdated(oldArr, newArr, wlo, wlen *Term) {
 			added++
 		}
 	}
+}
+
+// provedNow: does the current path condition together with the quantifier-free facts collected so far
+// entail g?  Linear facts over non-negative length atoms are decided syntactically; otherwise one
+// short z3 query is made (results cached).  A "no" only means the fact is left conditional.
+func (fx *FnExec) provedNow(g *Term) bool {
+	if g.IsTrue() {
+		return true
+	}
+	if fx.sideCache == nil {
+		fx.sideCache = map[[2]int]bool{}
+	}
+	key := [2]int{fx.curPC.ID, g.ID}
+	if v, ok := fx.sideCache[key]; ok {
+		return v
+	}
+	var ground []*Term
+	if fx.sideMemo == nil {
+		fx.sideMemo = map[*Term]bool{}
+	}
+	for _, a := range fx.assumes {
+		if !containsQuant(a, fx.sideMemo) {
+			ground = append(ground, a)
+		}
+	}
+	script := fx.c.Query(ground, fx.c.Implies(fx.curPC, g), nil, 2000)
+	r := quickUnsat(script, 2000)
+	fx.sideCache[key] = r
+	fx.sideQueries++
+	return r
 }
